@@ -876,12 +876,90 @@ func charMutatedRow(t *rapid.T, sym string) string {
 }
 
 // QR stream grammar
-func genQRStream(t *rapid.T) []byte {
+func genQRStream(t *rapid.T, version int) []byte {
 	var bits []bool
 	put := func(v, n int) {
 		for i := n - 1; i >= 0; i-- {
 			bits = append(bits, (v>>uint(i))&1 == 1)
 		}
+	}
+	if rapid.Bool().Draw(t, "wellformed") {
+		// well-formed segments (count fields of the right width for the version, payload of exactly
+		// the announced length), with FNC1 markers and the characters the post-processing looks at
+		cls := 0
+		if version >= 27 {
+			cls = 2
+		} else if version >= 10 {
+			cls = 1
+		}
+		nseg := rapid.IntRange(1, 4).Draw(t, "wnseg")
+		for sg := 0; sg < nseg; sg++ {
+			switch rapid.IntRange(0, 7).Draw(t, "wmode") {
+			case 0: // FNC1 first position
+				put(5, 4)
+			case 1: // FNC1 second position (+ application indicator)
+				put(9, 4)
+				if rapid.Bool().Draw(t, "appind") {
+					put(rapid.IntRange(0, 255).Draw(t, "ai"), 8)
+				}
+			case 2: // numeric
+				n := rapid.IntRange(0, 12).Draw(t, "nn")
+				put(1, 4)
+				put(n, []int{10, 12, 14}[cls])
+				for i := 0; i+3 <= n; i += 3 {
+					put(rapid.IntRange(0, 999).Draw(t, "d3"), 10)
+				}
+				if n%3 == 2 {
+					put(rapid.IntRange(0, 99).Draw(t, "d2"), 7)
+				} else if n%3 == 1 {
+					put(rapid.IntRange(0, 9).Draw(t, "d1"), 4)
+				}
+			case 3, 4, 5: // alphanumeric, '%' (value 38) over-weighted, also as the very last character
+				n := rapid.IntRange(0, 9).Draw(t, "an")
+				vals := make([]int, n)
+				for i := range vals {
+					vals[i] = rapid.SampledFrom([]int{38, 38, 0, 10, 36, 44, 37, 43}).Draw(t, "av")
+					if rapid.Bool().Draw(t, "avr") {
+						vals[i] = rapid.IntRange(0, 44).Draw(t, "avv")
+					}
+				}
+				if n > 0 && rapid.IntRange(0, 2).Draw(t, "pctlast") == 0 {
+					vals[n-1] = 38
+				}
+				put(2, 4)
+				put(n, []int{9, 11, 13}[cls])
+				for i := 0; i+2 <= n; i += 2 {
+					put(vals[i]*45+vals[i+1], 11)
+				}
+				if n%2 == 1 {
+					put(vals[n-1], 6)
+				}
+			case 6: // byte
+				n := rapid.IntRange(0, 8).Draw(t, "bn")
+				put(4, 4)
+				put(n, []int{8, 16, 16}[cls])
+				for i := 0; i < n; i++ {
+					put(rapid.SampledFrom([]int{0x25, 0x1D, 0x41, 0xE9, 0x83, 0x00}).Draw(t, "bv"), 8)
+				}
+			default: // kanji
+				n := rapid.IntRange(0, 4).Draw(t, "kn")
+				put(8, 4)
+				put(n, []int{8, 10, 12}[cls])
+				for i := 0; i < n; i++ {
+					put(rapid.IntRange(0, 0x1FFF).Draw(t, "kv"), 13)
+				}
+			}
+		}
+		if rapid.Bool().Draw(t, "wterm") {
+			put(0, 4)
+		}
+		out := make([]byte, (len(bits)+7)/8)
+		for i, b := range bits {
+			if b {
+				out[i/8] |= 0x80 >> uint(i%8)
+			}
+		}
+		return out
 	}
 	nseg := rapid.IntRange(0, 5).Draw(t, "nseg")
 	for s := 0; s < nseg; s++ {
@@ -1111,7 +1189,8 @@ func TestCheck(t *testing.T) {
 		})
 		// (iii) bit-stream parsers
 		run("stream_QR", c.N(2500, 30000), func(t *rapid.T) (Case, string) {
-			return Case{Family: "qrstream", Bytes: genQRStream(t), Version: rapid.SampledFrom([]int{1, 5, 9, 10, 20, 26, 27, 33, 40}).Draw(t, "v"), Level: rapid.IntRange(0, 3).Draw(t, "lv"), Hints: genHints(t)}, ""
+			v := rapid.SampledFrom([]int{1, 5, 9, 10, 20, 26, 27, 33, 40}).Draw(t, "v")
+			return Case{Family: "qrstream", Bytes: genQRStream(t, v), Version: v, Level: rapid.IntRange(0, 3).Draw(t, "lv"), Hints: genHints(t)}, ""
 		})
 		run("stream_DM", c.N(2500, 30000), func(t *rapid.T) (Case, string) {
 			n := rapid.IntRange(0, 60).Draw(t, "n")
